@@ -52,7 +52,7 @@ def main():
         rc0, out0 = sh(demo_cmd, cwd)
         log["demo_without_patch"] = {"rc": rc0, "tail": out0[-600:]}
         rc, out = sh("git apply --whitespace=nowarn %s || git apply --3way --whitespace=nowarn %s" % (patch, patch), wt)
-        rebased = subprocess.check_output(["git", "-C", wt, "diff", "HEAD"]).decode()
+        rebased = subprocess.check_output(["git", "-C", wt, "diff", "HEAD", "--", ".", ":!dnsrocks/go.mod", ":!dnsrocks/go.sum"]).decode()
         if rc != 0:
             log["apply"] = out
             print("PATCH DOES NOT APPLY", out)
